@@ -637,6 +637,7 @@ fn matmul_integer_part(ctx: &Ctx, thorough: bool, samples: &Samples) -> (u64, u6
                             };
                             let yd = y.to_vec();
                             let mut bad = None;
+                            let mut why = "output shape";
                             if y.shape() != &out_dims[..] {
                                 bad = Some(format!("output shape {:?} expected {:?}", y.shape(), out_dims));
                             } else {
@@ -651,15 +652,17 @@ fn matmul_integer_part(ctx: &Ctx, thorough: bool, samples: &Samples) -> (u64, u6
                                             }
                                             let got = yd[(bi * m + i) * n + j] as i64;
                                             if got != acc {
-                                                // would ignoring a zero point explain it?
+                                                // would ignoring a zero point (as the packed-operand path does) explain it?
+                                                let a_shift: i64 = if a_unsigned { 0 } else { 128 };
+                                                let b_shift: i64 = if b_unsigned { -128 } else { 0 };
                                                 let mut acc_a0 = 0i64;
                                                 let mut acc_b0 = 0i64;
                                                 for kk in 0..k {
-                                                    acc_a0 += (a[i * k + kk] as i64) * (b[kk * n + j] as i64 - bzv);
-                                                    acc_b0 += (a[i * k + kk] as i64 - azv) * (b[kk * n + j] as i64);
+                                                    acc_a0 += (a[i * k + kk] as i64 + a_shift) * (b[kk * n + j] as i64 - bzv);
+                                                    acc_b0 += (a[i * k + kk] as i64 - azv) * (b[kk * n + j] as i64 + b_shift);
                                                 }
-                                                let why = if got == acc_a0 { " (= product with a_zero_point ignored)" } else if got == acc_b0 { " (= product with b_zero_point ignored)" } else { "" };
-                                                bad = Some(format!("Y[{bi},{i},{j}] = {got} exact {acc}{why}"));
+                                                why = if got == acc_a0 { "zero point of the (internally prepacked) A operand ignored" } else if got == acc_b0 { "zero point of the prepacked B operand ignored" } else if zp_form == "vector" { "per-row zero points misapplied beyond the first panel" } else { "unexplained" };
+                                                bad = Some(format!("Y[{bi},{i},{j}] = {got} exact {acc}"));
                                                 break 'outer;
                                             }
                                         }
@@ -668,7 +671,7 @@ fn matmul_integer_part(ctx: &Ctx, thorough: bool, samples: &Samples) -> (u64, u6
                             }
                             match bad {
                                 None => ok += 1,
-                                Some(d) => ctx.violation(format!("{sig_base}: wrong value"), case, d),
+                                Some(d) => ctx.violation(format!("MatMulInteger {form}: wrong value ({why})"), case, format!("{sig_base}: {d}")),
                             }
                         }
                     }
